@@ -27,6 +27,7 @@ static const char *const fmts[] = {
 	"neg %ld then %lu then %lx\n",
 	"a\n",
 	"%lu\n",
+	"%s|%lu\n", /* with a string of any length 0..199: formatted lengths sweep past every plausible buffer size */
 };
 #define NFMT (sizeof(fmts) / sizeof(fmts[0]))
 static const char *const words[] = { "alpha", "beta", "gamma", "", "a longer string with spaces" };
@@ -62,6 +63,16 @@ static void fmt_msg(char *buf, size_t sz, const msg_t *m)
 #pragma GCC diagnostic pop
 }
 
+static char longstr[200][201];
+static void init_longstr(void)
+{
+	for (int n = 0; n < 200; n++) {
+		for (int i = 0; i < n; i++)
+			longstr[n][i] = (char)('a' + (i * 7 + n) % 26);
+		longstr[n][n] = 0;
+	}
+}
+
 static msg_t gen_msg(vh_rng_t *r, uint64_t serial)
 {
 	msg_t m;
@@ -72,6 +83,10 @@ static msg_t gen_msg(vh_rng_t *r, uint64_t serial)
 	if (m.fmt == 4) {
 		m.a[0] = (uintptr_t)words[vh_below(r, 5)];
 		m.a[1] = serial;
+	}
+	if (m.fmt == 8) {
+		m.a[0] = (uintptr_t)longstr[vh_below(r, 200)];
+		m.a[1] = serial % 1000;
 	}
 	return m;
 }
@@ -343,6 +358,7 @@ static void wrapreal(void)
 int main(int argc, char **argv)
 {
 	vh_init(argc, argv, "mlog");
+	init_longstr();
 	const char *mode = vh_opt.extra ? vh_opt.extra : "hist";
 	if (!strcmp(mode, "hist")) {
 		long long n = vh_opt.cases ? vh_opt.cases : (vh_opt.thorough ? 40000 : 2500);
